@@ -29,6 +29,30 @@ CHECKS = {
   "technique": "Lean 4 models with explicit trap outcomes + hostile differential correspondence; proofs of trap-freedom per component (in progress)",
   "design_ref": "DESIGN.md section 6 / C03",
  },
+ "C06": {
+  "text": "Executable Lean models of the assembly-window allocation ledger, the receive-window data entries and the packet sender, with the sender-side bound proved (C06_emit_alloc_le; receiver-side theorems listed in evidence as they are completed); tied to the code by hc correspondence in which a cfg-only probe returns the implementation's own alloc counters, assembly-buffer capacity and undelivered payload bytes after every tick, compared exactly with the model and checked against the limits. Hostile streams (fragment counts up to 65536, never-completing packets, cross-channel parents, application not reading) found defect F2 (repaired).",
+  "note": "Partial: receiver-side invariants (alloc = sum over slots <= ceil(limit), held <= alloc) are in progress as theorems; until then they are checked on every probe of every scenario. Allocator overhead is outside the model.",
+  "technique": "Lean 4 model + invariant proofs (in progress) + differential correspondence with a counter probe",
+  "design_ref": "DESIGN.md section 6 / C06",
+ },
+ "C13": {
+  "text": "Executable Lean model of the leaky-bucket credit (fill_flush_alloc, the three emitters) generic over the floating-point operations; the Float instance is bit-exact with the code (flush_alloc, rate, rtt bits compared in every probe). The interval bound bytes(t1,t2] <= ceiling*(t2-t1+rtt)+1472 is evaluated on the implementation over all pairs of emission instants in scenarios with ceilings from 1472 B/s, backlogs, 0.1 ms..10 s cadences, repeated flushes and pauses. Found and repaired F14/F15 (per-step rounding) and F13 (ceiling not re-applied). Credit-invariant theorems are in progress (evidence.partial).",
+  "note": "Partial: theorems on the credit recurrence in progress; IEEE rounding modelled not verified.",
+  "technique": "Lean 4 model generic over FloatOps + bit-exact differential correspondence + sliding-interval oracle",
+  "design_ref": "DESIGN.md section 6 / C13",
+ },
+ "C14": {
+  "text": "Executable Lean model of the TFRC sender (send_rate.rs, recv_rate_set.rs) generic over FloatOps, bit-exact Float instance compared with the code in every probe; implementation-side oracle for each clause (ceiling, floor, no increase / keep-or-halve without feedback, slow-start doubling bound, equation bound). Found and repaired F13, F6, F7, F16. Ordering theorems over every FloatOps are in progress (evidence.partial).",
+  "note": "Partial: theorems in progress; accuracy of the IEEE evaluation of the throughput equation is modelled, not verified.",
+  "technique": "Lean 4 model generic over FloatOps + bit-exact differential correspondence + per-clause oracle",
+  "design_ref": "DESIGN.md section 6 / C14",
+ },
+ "C15": {
+  "text": "Executable Lean model of the frame log / ack-group validation / reorder buffer / loss intervals; twin-run correspondence: a baseline scenario and a copy differing only by injected acknowledgements (replays of delivered ack frames, wrong-nonce groups over logged frames, groups naming unknown/forgotten/future ids, frame ids straddling the u32 wrap) must give identical sender outputs on the implementation, and model = implementation on both. Found and repaired F8. No-op theorems in progress (C15_empty_group_noop proved).",
+  "note": "Partial: bad-nonce / unknown-frame / replay no-op theorems in progress.",
+  "technique": "Lean 4 model + twin-run differential correspondence; no-op theorems (in progress)",
+  "design_ref": "DESIGN.md section 6 / C15",
+ },
 }
 
 NOT_YET = "check not built yet (work in progress; see DESIGN.md section 11 for the order)"
